@@ -2255,8 +2255,8 @@ def r7_19_bitmap_read_only_with_pixels(ck, P, rid='C07-R19'):
                         a0, a1 = a1, a0; eff = {'slt': 'sgt', 'sgt': 'slt', 'sle': 'sge', 'sge': 'sle'}.get(eff, eff)
                     if list(f.strip_casts(a0)) == ['v', W.i] and a1[0] == 'c':
                         k = int(a1[1])
-                        if (eff == 'sgt' and k >= 0) or (eff == 'sge' and k >= 1):
-                            ok = True
+                        if (eff == 'sgt' and k >= 0) or (eff == 'sge' and k >= 1) or (eff == 'ne' and k == 0):
+                            ok = True          # an image's width is never negative: != 0 excludes the one value that has no first word
                 where = '%s (%s): bitmap read at %s' % (fn, u.name, x.loc())
                 if ok:
                     ck.ok(R, where, 'under width > 0')
